@@ -15,7 +15,7 @@ import tempfile
 from pathlib import Path
 
 from ..core import Family
-from .c03 import CERTS, HOSTS, Runner, expected_steps
+from .c03 import CERTS, HOSTS, SHM, Runner, expected_steps
 
 ID = "C11"
 READY = True
@@ -36,7 +36,9 @@ LEVEL_NOTE = ("proved for the model, not for the Python source; the TLS handshak
               "at the peer (bytes received when verification fails must be empty), not by instrumenting the client")
 TECHNIQUE = "interactive theorem proving (Lean 4) + model-based differential testing against live loopback TLS peers recording application bytes"
 
-SITUATIONS = ["unpinned", "pinned", "changed", "hostile", "patched-raise", "patched-none"]
+# "changed-after-ok": the SAME GeminiClient object first talks to the host successfully (certificate X, pinned on first use),
+# then the host presents another certificate on the next connection
+SITUATIONS = ["unpinned", "pinned", "changed", "changed-after-ok", "hostile", "patched-raise", "patched-none"]
 OPS = ["get", "getq", "upload", "delete", "chain"]
 MODES = ["eager", "lazy", "never"]
 
@@ -55,7 +57,7 @@ def should_fail(case) -> bool:
 
 class Scenarios(Family):
     name = "scenarios"
-    quick_n = 420
+    quick_n = 640
     thorough_n = 4000
     parallel = True      # every process binds its own ports (port 0) in setup()
 
@@ -95,7 +97,7 @@ class Scenarios(Family):
     @staticmethod
     def prepinned_other(case) -> bool:
         sit = case["situation"]
-        if sit == "changed":
+        if sit in ("changed", "changed-after-ok"):
             return True
         # unreadable certificate: against a pinned host and (the historical defect) against an unpinned one
         return sit in ("hostile", "patched-raise", "patched-none") and case.get("cseed", 0) % 2 == 0
@@ -115,7 +117,7 @@ class Scenarios(Family):
         from nauyaca.security.tofu import TOFUDatabase
 
         R = self.R
-        tmp = tempfile.mkdtemp(prefix="nv-")
+        tmp = tempfile.mkdtemp(prefix="nv-", dir=SHM)
         db = Path(tmp) / "tofu.db"
         hops, patch = self.hops_of(case)
         target = hops[-1]
@@ -126,7 +128,7 @@ class Scenarios(Family):
         def steps_for(i, reply):
             tail = [["close"]] if reply[:1] == b"2" else [["read_eof", 2.0], ["close"]]
             if mode == "never" and i == len(hops) - 1:
-                return [["sleep", 0.25], ["drain"], ["close"]]
+                return [["sleep", 0.4], ["drain"], ["close"]]
             pre = [["sleep", 0.08]] if mode == "lazy" else []
             return pre + [["read_request", 3.0], ["send", reply]] + tail
 
@@ -136,10 +138,20 @@ class Scenarios(Family):
             sit = case["situation"]
             if sit == "pinned":
                 tdb.trust(HOSTS[target[0]], R.ports[target[1]], R.w["certs"].x509(CERTS[case["cert"]]))
+            elif sit == "changed-after-ok":
+                pass        # pinned below, by a real first connection of the same client object
             elif self.prepinned_other(case):
                 # changed (and half of the unreadable) situations: the host is pinned to ANOTHER certificate
                 tdb.trust(HOSTS[target[0]], R.ports[target[1]], R.w["certs"].x509(CERTS[(case["cert"] + 1) % 3]))
             client = GeminiClient(timeout=5.0, trust_on_first_use=case["tofu"], tofu_db_path=db if case["tofu"] else None)
+            if sit == "changed-after-ok":
+                other = (case["cert"] + 1) % 3
+                first, _ = await R.call(client, "get", [[target[0], target[1], other, ""]])
+                R.take_logs()
+                if case["tofu"]:
+                    assert first[0] == "ok", first
+                else:
+                    tdb.trust(HOSTS[target[0]], R.ports[target[1]], R.w["certs"].x509(CERTS[other]))
             if case["op"] == "chain" and patch:
                 # the loader failure must hit the redirect target only: patch when the second connection is made
                 return await self.chain_with_patch(client, hops, patch, steps_for)
@@ -149,7 +161,7 @@ class Scenarios(Family):
             return await R.call(client, kind, one, content=content_of(case), token=case["token"], query=query, steps_for=steps_for)
 
         try:
-            res, url = asyncio.run(run())
+            res, url = R.run(run())
             logs = R.take_logs()
         finally:
             shutil.rmtree(tmp, ignore_errors=True)
